@@ -199,6 +199,55 @@ def run(R):
     else:
         R.ob("C10-R4", "evict-first", "no deletion of previous-firing state follows the load", True)
     r5(R)
+    r6(R)
+
+
+def r6(R):
+    """relation-to-stream operators: the last-result memory is replaced by the current answer on every stateful firing"""
+    from lib import guards as G
+    prog = R.prog
+    R.rule("C10-R6", "last-result memory: in every arm of the relation-to-stream operator that consults last_result, every path to the "
+                     "return replaces last_result by the set of the current answer (so the next firing diffs against this firing)")
+    ev = R.body("C10-R6", "Relation2StreamOperator::eval", crate="kolibrie")
+    if ev is None:
+        return
+    ADT = "kolibrie::rsp::r2s::Relation2StreamOperator"
+    asg = [(bb, rv, s) for bb, i, pl, rv, s in ev.assigns() if pl["p"] and pl["p"][-1].get("n") == "last_result" and pl["p"][-1].get("adt") == ADT]
+    R.floor("C10-R6", "assignments of last_result", len(asg), 2)
+    from lib.taint import Taint
+    T = Taint(prog, ev)
+    T.seed(ev, 2, "answer")
+    T.run()
+    exits = set(ev.exits())
+    narm = 0
+    for bb, t in ev.terms():
+        if t["t"] != "switch":
+            continue
+        for tgt, c in G.edge_conditions(ev, bb):
+            if c["kind"] != "variant" or not (c.get("adt") or "").endswith("StreamOperator"):
+                continue
+            region = {k for k in ev.reachable_blocks() if ev.dominates(tgt, k)} if ev.pred(tgt) == [bb] else {tgt}
+            # does the arm consult last_result (directly or in a closure created in the arm)?
+            reads = False
+            for b2, i, pl, rv, s in ev.assigns():
+                if b2 in region:
+                    for p2, kind in F.rv_places(rv):
+                        if any(e["k"] == "field" and e["n"] == "last_result" for e in p2["p"]):
+                            reads = True
+            if not reads:
+                continue
+            narm += 1
+            ab = {b2 for b2, rv, s in asg if b2 in region}
+            escapes = ev.reach_from([tgt], avoid=ab) & exits
+            ok = bool(ab) and not escapes
+            R.ob("C10-R6", "memory-updated:" + str(c.get("variant")), "the %s arm replaces last_result on every path to its return" % c.get("variant"),
+                 ok, where=ev.where(), detail=None if ok else "a firing that returns early keeps an older answer as the reference for the next diff")
+            for b2, rv, s in asg:
+                if b2 in region:
+                    okv = rv["rv"] == "use" and "answer" in T.op_taint(ev, rv["op"])
+                    R.ob("C10-R6", "memory-is-answer:" + str(c.get("variant")), "the %s arm stores the set of the current answer" % c.get("variant"), okv,
+                         where=ev.where(s.get("ln")))
+    R.floor("C10-R6", "stateful stream-operator arms", narm, 2)
 
 
 def r5(R):
